@@ -322,7 +322,8 @@ class PDFContentParser(PSStackParser[Union[PSKeyword, PDFStream]]):
                 ):
                     i += 1
                 else:
-                    i = 0
+                    # the byte that broke the match may itself start the marker
+                    i = 1 if c == target[:1] else 0
             else:
                 try:
                     j = self.buf.index(target[0], self.charpos)
